@@ -269,8 +269,19 @@ def disk_kind(name):
     return 1, 0, ext
 
 
+CONFUSABLE = ["bin", "txt", "bas", "BAS", "Bin", "TXT", "auto", "bat", "AUTO", "auto.bas", "auto.bat", "AUTO.BAT", "Auto.Bat", "x.bat",
+              "bas.txt", "txt.bin", "bin.bas", "bat.bas,a", "bas.bas,a", "autox.bat", "auto.ba", "csv", "dat", "a", "1", "12345678.123", "0.0"]
+
+
 def gen_disk_name(rng, used):
     for _ in range(200):
+        if rng.random() < 0.18:
+            full = rng.choice(CONFUSABLE)
+            key = T.catalog_name(full)
+            if key not in used:
+                used.add(key)
+                return full
+            continue
         n = "".join(rng.choice(T.NAME_CHARS) for _ in range(rng.choice([1, 2, 4, 8])))
         if n[0] == "-":
             n = "Z" + n[1:]
